@@ -55,6 +55,8 @@ func Pool(pad int) []PoolItem {
 		{"pas", Content{Props: props(), Refs: props("p", []interface{}{"e2"}, "q", "e2")}},
 		{"r223", Content{Props: props(), Refs: props("p", []interface{}{"e2", "e2", "e3"})}},
 		{"nest2", Content{Props: props("v", map[string]interface{}{"id": "n9", "props": map[string]interface{}{"w": 2}, "refs": map[string]interface{}{}}), Refs: no}},
+		// an array of arrays of whole numbers, as a transform or a job sink hands it over (Go ints, not float64)
+		{"arrarr", Content{Props: props("v", []interface{}{[]interface{}{1, 2}, []interface{}{3}}), Refs: no}},
 	}
 	return items
 }
